@@ -264,6 +264,9 @@ func main() {
 	}
 
 	p := makeProp(*propID)
+	if ts, ok := p.(interface{ SetTier(string) }); ok {
+		ts.SetTier(*tier)
+	}
 	verifsim.SetMapPolicy(&verifsim.OrderPolicy{Kind: verifsim.OrdAsc})
 	verifsim.CaptureStdout()
 
@@ -507,6 +510,9 @@ func doReplay(p Prop, path string) int {
 	if err := json.Unmarshal(data, &rf); err != nil {
 		fmt.Fprintln(os.Stderr, "simworker:", err)
 		return 2
+	}
+	if ts, ok := p.(interface{ SetTier(string) }); ok && rf.Tier != "" {
+		ts.SetTier(rf.Tier)
 	}
 	var c *verifsim.Chooser
 	if rf.Trace != nil {
